@@ -37,6 +37,12 @@ written on the exceptional continuation of the send only under a test that the c
 server's error as a connection loss, and that helper can answer "not a connection loss" (seeded s4-c17-1).  ``r3_session_paths`` (the "a completed close() on every path that ends
 a session" half of R3) is registered under C18 as its R5.
 
+Wave 8: R2 also decides who may call the raw send INSIDE the state machine (``_raw_send_behind_the_gate``: only close() - tabled - and a
+site where a failing server send() is caught and classified; seeded s8-c17-3); R3 that the helper by which ``_handle_exception`` decides
+"does the selected error handler accept ws" reports every keyword-bindable parameter kind (abstract evaluation of its ``Parameter.kind``
+filter over the five kinds; seeded s8-c17-1; anchors: the ``'ws' in <helper>(<handler>)`` test, ``inspect.signature``); R4 the registered
+close-code table below 3000 (1001-1003, 1007-1010, 1012-1014 accepted; 1004, 1016, 1999 rejected; seeded s8-c17-2).
+
 Declared anchors (renaming one gives exit 2, never exit 1): class
 ``falcon.asgi.ws.WebSocket`` with its public operations, the private enum
 ``_WebSocketState`` (members HANDSHAKE/ACCEPTED/CLOSED; further members are read from the class and classified by
@@ -733,6 +739,7 @@ def r2_who_may_emit(run):
                           g, c, runtime_witness='an event is emitted without passing the state guards')
     if sites == 0:
         raise AnchorError('no call of WebSocket.%s found' % model.raw_send)
+    _raw_send_behind_the_gate(run, model)
     # direct use of the send callable in _handle_websocket
     f = p.func(HANDLE_WS)
     cfg = cfg_of(f, p)
@@ -797,6 +804,75 @@ def r2_who_may_emit(run):
     for t in OUT_EVENTS:
         if t not in table:
             raise AnchorError('no %s event literal found' % t)
+
+
+def _raw_send_behind_the_gate(run, model: WSModel):
+    """Who may call the raw ASGI send INSIDE the state machine (wave 8, seeded s8-c17-3).  The raw send is called only
+
+    (a) by ``close()`` - tabled: the closing operation does its own state test and must be able to put websocket.close on the wire
+        after errors, whatever the gate thinks of the receiver's flag (R1 decides its guards and post-state); and
+    (b) at a site that IS a gate: every exceptional edge out of the call ends in an ``except`` arm catching Exception, and on
+        that arm the server's error is classified - the caught exception is handed to a same-class helper one of whose returns is a
+        ``WebSocketDisconnected`` (R1 ties the CLOSED write and the re-raise to that helper's verdict), or a WebSocketDisconnected
+        is raised there directly.
+
+    Every other operation (accept, send_*) therefore emits through a gate.  Lemma: a server send() error that means "connection lost"
+    leaves EVERY operation as WebSocketDisconnected with the state terminal.
+    W: the server's send() raises OSError for the websocket.accept event (client gave up during the handshake): accept() lets the raw
+    OSError escape, the state stays HANDSHAKE and the error handler's cleanup sends websocket.close on the lost connection."""
+    p = run.project
+    n_gates = 0
+    for q in sorted(model.visited_funcs):
+        g = p.func(q)
+        cfg = cfg_of(g, p)
+        sends = [n for n in cfg.live_nodes() if any(model.is_raw_send_call(c) for c in n.calls())]
+        if not sends:
+            continue
+        run.use_cfg(cfg)
+        send_ids = [n.id for n in sends]
+        exc_names = {n.ast.name for n in cfg.live_nodes() if n.kind == 'handler' and isinstance(n.ast, ast.ExceptHandler) and n.ast.name}
+        for s in sends:
+            call = [c for c in s.calls() if model.is_raw_send_call(c)][0]
+            if g.cls is not None and g.cls.qual == WS and g.name == 'close':
+                run.ok('close() puts its event on the raw ASGI send itself (tabled: the one operation that must be able to emit after errors; '
+                       'its guards and post-state are decided by R1)', g.loc(s.ast), call)
+                continue
+            excs = [y for (y, l) in cfg.succ[s.id] if l == 'exc']
+            caught = bool(excs) and all(cfg.node(y).kind == 'handler' for y in excs) and any(_catches_exception(cfg.node(y)) for y in excs)
+            classified, unread = False, None
+            if caught:
+                for nid in flow.reachable(cfg, excs, avoid_nodes=send_ids):
+                    n = cfg.node(nid)
+                    if n.kind == 'stmt' and isinstance(n.ast, ast.Raise) and n.ast.exc is not None:
+                        e = n.ast.exc.func if isinstance(n.ast.exc, ast.Call) else n.ast.exc
+                        rq = p.resolve_expr(g.module, e, g)
+                        if rq is not None and (rq == E_DISCONNECTED or p.is_subclass(rq, E_DISCONNECTED) is True):
+                            classified = True
+                    for c in n.calls():
+                        m = model._self_method(g, c)
+                        if m is None or not any(isinstance(a, ast.Name) and a.id in exc_names for a in list(c.args) + [kw.value for kw in c.keywords]):
+                            continue
+                        try:
+                            kinds = return_kinds(p, m)
+                        except UnknownIdiom as ex:
+                            unread = str(ex)
+                            continue
+                        if any(k != RET_NONE and (k == E_DISCONNECTED or p.is_subclass(k, E_DISCONNECTED) is True) for k in kinds):
+                            classified = True
+                if not classified and unread is not None:
+                    raise UnknownIdiom('%s: the handling of a failed raw send is not understood (%s)' % (g.qual, unread))
+            if caught and classified:
+                n_gates += 1
+            run.check(caught and classified,
+                      'the raw ASGI send is called only by close() and at a site where a failing server send() is caught and classified '
+                      '(connection loss -> WebSocketDisconnected): every other operation emits through that gate', g, call,
+                      witness=['%s: an exception of %s leaves %s() %s' % (g.loc(s.ast), short(call), g.name,
+                                                                        'uncaught' if not caught else 'without being classified')],
+                      runtime_witness='the server\'s send() raises OSError for the event %s() emits (the client is gone): the raw error escapes instead of '
+                                      'WebSocketDisconnected, the state is not marked CLOSED and the error handler\'s cleanup sends websocket.close '
+                                      'on the lost connection' % g.name)
+    if n_gates == 0:
+        raise AnchorError('no call of the raw ASGI send whose failure is caught and classified (the gate _send) was found')
 
 
 def _ws_ctor(p, f, cfg):
@@ -899,6 +975,216 @@ def _one_def(f: Func, e):
 def r3_always_closed(run):
     r3_session_paths(run)
     _r3_close_codes(run)
+    _r3_handler_accepts_ws(run)
+
+
+_PARAM_KINDS = ('POSITIONAL_ONLY', 'POSITIONAL_OR_KEYWORD', 'VAR_POSITIONAL', 'KEYWORD_ONLY', 'VAR_KEYWORD')
+# the kinds of parameter that ``handler(..., ws=<socket>)`` can bind by keyword
+_KEYWORD_BINDABLE = (('POSITIONAL_OR_KEYWORD', 'async def handle(req, resp, ex, params, ws=None)'),
+                     ('KEYWORD_ONLY', 'async def handle(req, resp, ex, params, *, ws=None)'))
+
+
+def _conjuncts(expr, truth):
+    """[(atom, truth)] that all hold when `expr` evaluates to `truth`; None when that is a disjunction"""
+    expr = strip_await(expr)
+    if isinstance(expr, ast.UnaryOp) and isinstance(expr.op, ast.Not):
+        return _conjuncts(expr.operand, not truth)
+    if isinstance(expr, ast.BoolOp):
+        if isinstance(expr.op, ast.And) == truth:
+            out = []
+            for v in expr.values:
+                r = _conjuncts(v, truth)
+                if r is None:
+                    return None
+                out += r
+            return out
+        return None
+    return [(expr, truth)]
+
+
+def _reported_param_kinds(p, h: Func) -> Dict[str, bool]:
+    """Abstract evaluation of an "argument names of this callable" helper over the five ``inspect.Parameter`` kinds:
+    kind -> is a parameter of that kind reported.  Understood: ``return <names>`` where every value of <names> is either a
+    comprehension over ``inspect.signature(<parameter>).parameters.values()`` / ``.items()`` yielding the parameter's name under filters
+    on ``<param>.kind`` (==, !=, is, is not, in, not in against inspect.Parameter.<KIND> constants, and/or/not), or the same list minus a
+    leading element guarded by ``<names>[0] == '<constant>'`` (the 'self' normalisation).  Anything else: unknown idiom."""
+    hp = [a for a in h.params() if a not in ('self', 'cls')]
+    rets = [n for n in walk_self(h.node) if isinstance(n, ast.Return)]
+    if not rets:
+        raise UnknownIdiom('%s never returns' % h.qual)
+    cfg = cfg_of(h, p)
+
+    def is_signature_of_param(e, depth=0):
+        e = _one_def(h, e)
+        return (isinstance(e, ast.Call) and p.resolve_expr(h.module, e.func, h) == 'inspect.signature' and len(e.args) == 1 and not e.keywords
+                and isinstance(e.args[0], ast.Name) and e.args[0].id in hp)
+
+    def kind_const(e):
+        q = p.resolve_expr(h.module, e, h)
+        if q is not None and q.startswith('inspect.Parameter.') and q.rsplit('.', 1)[1] in _PARAM_KINDS:
+            return q.rsplit('.', 1)[1]
+        if q is not None and q.startswith('inspect._ParameterKind.') and q.rsplit('.', 1)[1] in _PARAM_KINDS:
+            return q.rsplit('.', 1)[1]
+        raise UnknownIdiom('%s: %s compared with the parameter kind' % (h.qual, short(e)))
+
+    def comp_kinds(c):
+        if len(c.generators) != 1 or c.generators[0].is_async:
+            raise UnknownIdiom('%s: %s' % (h.qual, short(c)))
+        gen = c.generators[0]
+        it = gen.iter
+        if not (isinstance(it, ast.Call) and isinstance(it.func, ast.Attribute) and it.func.attr in ('values', 'items') and not it.args
+                and isinstance(it.func.value, ast.Attribute) and it.func.value.attr == 'parameters' and is_signature_of_param(it.func.value.value)):
+            raise UnknownIdiom('%s: the names are not taken from inspect.signature(<callable>).parameters (%s)' % (h.qual, short(it)))
+        name_var = par_var = None
+        if it.func.attr == 'values' and isinstance(gen.target, ast.Name):
+            par_var = gen.target.id
+        elif it.func.attr == 'items' and isinstance(gen.target, ast.Tuple) and len(gen.target.elts) == 2 and all(isinstance(x, ast.Name) for x in gen.target.elts):
+            name_var, par_var = gen.target.elts[0].id, gen.target.elts[1].id
+        else:
+            raise UnknownIdiom('%s: loop target of %s' % (h.qual, short(c)))
+        elt = c.elt
+        if not ((isinstance(elt, ast.Name) and elt.id == name_var)
+                or (isinstance(elt, ast.Attribute) and elt.attr == 'name' and isinstance(elt.value, ast.Name) and elt.value.id == par_var)):
+            raise UnknownIdiom('%s: %s is not the name of the parameter' % (h.qual, short(elt)))
+
+        def is_kind(e):
+            return isinstance(e, ast.Attribute) and e.attr == 'kind' and isinstance(e.value, ast.Name) and e.value.id == par_var
+
+        out = {}
+        for kind in _PARAM_KINDS:
+            def atom(e, kind=kind):
+                if isinstance(e, (ast.BoolOp, ast.Constant)) or (isinstance(e, ast.UnaryOp) and isinstance(e.op, ast.Not)):
+                    return None
+                if isinstance(e, ast.Compare) and len(e.ops) == 1 and (is_kind(e.left) or is_kind(e.comparators[0])):
+                    other = e.comparators[0] if is_kind(e.left) else e.left
+                    op = e.ops[0]
+                    if isinstance(op, (ast.In, ast.NotIn)) and is_kind(e.left) and isinstance(other, (ast.Tuple, ast.List, ast.Set)):
+                        r = kind in [kind_const(x) for x in other.elts]
+                        return {r if isinstance(op, ast.In) else not r}
+                    if isinstance(op, (ast.Eq, ast.Is, ast.NotEq, ast.IsNot)):
+                        r = kind == kind_const(other)
+                        return {r if isinstance(op, (ast.Eq, ast.Is)) else not r}
+                raise UnknownIdiom('%s: filter %s on the reported parameters' % (h.qual, short(e)))
+            vals = [possible(cond, atom) for cond in gen.ifs]
+            if any(len(v) != 1 for v in vals):
+                raise UnknownIdiom('%s: filter of %s not decided for kind %s' % (h.qual, short(c), kind))
+            out[kind] = all(True in v for v in vals)
+        return out
+
+    def kinds_of(e, seen=()):
+        """-> {kind: reported} for the sequence-of-names expression e"""
+        if isinstance(e, ast.Call) and isinstance(e.func, ast.Name) and e.func.id in ('list', 'tuple') and len(e.args) == 1 and not e.keywords:
+            return kinds_of(e.args[0], seen)
+        if isinstance(e, (ast.ListComp, ast.GeneratorExp)):
+            return comp_kinds(e)
+        if isinstance(e, ast.Name) and e.id not in h.params() and e.id not in seen:
+            results = []
+            for n in walk_self(h.node):
+                if isinstance(n, ast.AnnAssign) and isinstance(n.target, ast.Name) and n.target.id == e.id and n.value is not None:
+                    tg, val = [n.target], n.value
+                elif isinstance(n, ast.Assign):
+                    tg, val = n.targets, n.value
+                elif isinstance(n, (ast.AugAssign, ast.For, ast.AsyncFor, ast.NamedExpr, ast.Delete)) and any(
+                        isinstance(x, ast.Name) and x.id == e.id and isinstance(x.ctx, (ast.Store, ast.Del)) for x in ast.walk(n)):
+                    raise UnknownIdiom('%s: %s is rebound by %s' % (h.qual, e.id, short(n)))
+                else:
+                    continue
+                if not any(isinstance(t, ast.Name) and t.id == e.id for t in tg):
+                    if any(isinstance(x, ast.Name) and x.id == e.id for t in tg for x in ast.walk(t)):
+                        raise UnknownIdiom('%s: %s is rebound by %s' % (h.qual, e.id, short(n)))
+                    continue
+                # <names> = <names>[k:] under a test <names>[0] == '<const>': drops a leading name equal to that constant only
+                if isinstance(val, ast.Subscript) and isinstance(val.value, ast.Name) and val.value.id == e.id and isinstance(val.slice, ast.Slice) \
+                        and val.slice.upper is None and val.slice.step is None and p.fold(h.module, val.slice.lower, None, h) == 1:
+                    def first_is_const(x, name=e.id):
+                        return (isinstance(x, ast.Compare) and len(x.ops) == 1 and isinstance(x.ops[0], ast.Eq) and isinstance(x.left, ast.Subscript)
+                                and isinstance(x.left.value, ast.Name) and x.left.value.id == name and p.fold(h.module, x.left.slice, None, h) == 0
+                                and isinstance(p.fold(h.module, x.comparators[0], None, h), str) and p.fold(h.module, x.comparators[0], None, h) != 'ws')
+                    nodes = cfg.nodes_for(n)
+                    guarded = bool(nodes) and all(any(implied(t.ast, lab == 'T', first_is_const) is True
+                                                      and any(flow.dominated_by_edge(cfg, nid, ed) for ed in flow.edges_out(cfg, t.id, lab))
+                                                      for t in cfg.live_nodes() if t.kind == 'test' for lab in ('T', 'F')) for nid in nodes)
+                    if not guarded:
+                        raise UnknownIdiom('%s: %s drops leading names unconditionally' % (h.qual, short(n)))
+                    continue
+                results.append(kinds_of(val, seen + (e.id,)))
+            if not results:
+                raise UnknownIdiom('%s: values of %s not understood' % (h.qual, e.id))
+            return {k: all(r[k] for r in results) for k in _PARAM_KINDS}
+        raise UnknownIdiom('%s: the reported names %s' % (h.qual, short(e)))
+
+    per_ret = []
+    for r in rets:
+        if r.value is None:
+            raise UnknownIdiom('%s: bare return' % h.qual)
+        per_ret.append(kinds_of(r.value))
+    return {k: all(r[k] for r in per_ret) for k in _PARAM_KINDS}
+
+
+def _r3_handler_accepts_ws(run):
+    """``_handle_exception`` hands the socket to the selected error handler "when the handler accepts it" (wave 8, seeded s8-c17-1):
+    the condition under which ``ws`` is put among the handler's keyword arguments may, besides the socket being there, only be
+    ``'ws' in <helper>(<handler>)``, and that helper - evaluated abstractly over the five ``inspect.Parameter`` kinds - reports the
+    parameters of EVERY kind that can be bound by keyword (POSITIONAL_OR_KEYWORD and KEYWORD_ONLY).
+    W: ``async def handle(req, resp, ex, params, *, ws=None)`` registered for the raised exception: it is called without the socket,
+    cannot close it, _handle_exception() returns True and the session ends without a websocket.close."""
+    p = run.project
+    he = p.func(ASGI_APP + '._handle_exception')
+    hcfg = cfg_of(he, p)
+    finder = [n for n in walk_self(he.node) if isinstance(n, ast.Assign) and isinstance(strip_await(n.value), ast.Call)
+              and isinstance(strip_await(n.value).func, ast.Attribute) and strip_await(n.value).func.attr == '_find_error_handler'
+              and isinstance(n.targets[0], ast.Name)]
+    hname = single(finder, 'self._find_error_handler(...) binding', he.qual).targets[0].id
+    stores = [m for m in hcfg.live_nodes() if m.kind == 'stmt' and isinstance(m.ast, ast.Assign) and len(m.ast.targets) == 1
+              and isinstance(m.ast.targets[0], ast.Subscript) and isinstance(m.ast.targets[0].slice, ast.Constant) and m.ast.targets[0].slice.value == 'ws'
+              and isinstance(m.ast.value, ast.Name) and m.ast.value.id == 'ws']
+    if not stores:
+        return  # ws passed as a direct keyword (or not at all): decided by r3_session_paths
+
+    def mentions(e, name):
+        return any(isinstance(x, ast.Name) and x.id == name for x in ast.walk(e))
+
+    helpers: Dict[str, Func] = {}
+    for s in stores:
+        for t in hcfg.live_nodes():
+            if t.kind != 'test':
+                continue
+            for lab in ('T', 'F'):
+                if not any(flow.dominated_by_edge(hcfg, s.id, e) for e in flow.edges_out(hcfg, t.id, lab)):
+                    continue
+                if not (mentions(t.ast, 'ws') or mentions(t.ast, hname)):
+                    continue
+                cj = _conjuncts(t.ast, lab == 'T')
+                if cj is None:
+                    raise UnknownIdiom('%s: condition %s on handing ws to the handler' % (he.qual, short(t.ast)))
+                for (a, truth) in cj:
+                    if isinstance(a, ast.Name) and a.id in ('ws', hname) and truth:
+                        continue
+                    if isinstance(a, ast.Compare) and len(a.ops) == 1 and isinstance(a.ops[0], (ast.Is, ast.IsNot)) and isinstance(a.left, ast.Name) \
+                            and a.left.id in ('ws', hname) and isinstance(a.comparators[0], ast.Constant) and a.comparators[0].value is None \
+                            and isinstance(a.ops[0], ast.IsNot) == truth:
+                        continue
+                    if isinstance(a, ast.Compare) and len(a.ops) == 1 and isinstance(a.ops[0], (ast.In, ast.NotIn)) and isinstance(a.ops[0], ast.In) == truth \
+                            and isinstance(a.left, ast.Constant) and a.left.value == 'ws':
+                        c = _one_def(he, a.comparators[0])
+                        if isinstance(c, ast.Call) and len(c.args) == 1 and not c.keywords and isinstance(c.args[0], ast.Name) and c.args[0].id == hname:
+                            m = p.callee(he, c)
+                            if isinstance(m, Func):
+                                helpers[m.qual] = m
+                                continue
+                    if mentions(a, 'ws') or mentions(a, hname):
+                        raise UnknownIdiom('%s: condition %s on handing ws to the handler' % (he.qual, short(a)))
+    if not helpers:
+        run.ok('_handle_exception hands ws to the selected handler whenever there is a socket (no test of the handler\'s signature)', he.loc(), 'ws handed over')
+        return
+    for q, m in sorted(helpers.items()):
+        kinds = _reported_param_kinds(p, m)
+        run.sample({'rule': 'R3', 'helper': q, 'reported parameter kinds': kinds})
+        for kind, example in _KEYWORD_BINDABLE:
+            run.check(kinds[kind], '%s (how _handle_exception decides whether the selected error handler accepts ws=<socket>) reports '
+                                   'parameters of kind %s' % (m.name, kind), m, '%s reports %s parameters' % (m.name, kind),
+                      runtime_witness='a custom error handler declared as "%s" is called without the socket: it cannot close it, '
+                                      '_handle_exception() returns True and the session ends without a websocket.close' % example)
 
 
 def r3_session_paths(run):
@@ -1245,6 +1531,19 @@ def _raises_status(run, g: Func, want: str, what: str):
     r = single(raises, 'raise', g.qual)
     e = r.exc.func if isinstance(r.exc, ast.Call) else r.exc
     q = p.resolve_expr(g.module, e, g)
+    if q not in p.classes and isinstance(e, ast.Name):
+        # an instance built once by this function or an enclosing one (`error = HTTPMethodNotAllowed(...)` ... `raise error`): the status
+        # is that of its class (whether one instance may be raised for every request is C19's question, not this rule's)
+        h = g
+        while h is not None and q not in p.classes:
+            ds = local_defs(h, e.id)
+            if len(ds) == 1 and isinstance(ds[0], ast.Call) and not isinstance(r.exc, ast.Call):
+                q = p.resolve_expr(h.module, ds[0].func, h)
+            elif len(ds) == 1 and isinstance(ds[0], (ast.Name, ast.Attribute)):
+                q = p.resolve_expr(h.module, ds[0], h)         # an alias of the class
+            elif ds:
+                break
+            h = h.parent
     if q not in p.classes:
         raise UnknownIdiom('%s raises %s' % (g.qual, short(r.exc)))
     init = p.lookup_method(q, '__init__')
@@ -1427,6 +1726,27 @@ def _points(ce: _CloseEval, lo, hi):
     return sorted(x for x in out if lo <= x <= hi)
 
 
+# Close codes below 3000 as registered (RFC 6455 section 7.4.1, IANA "WebSocket Close Code Number Registry", restated by the MDN
+# CloseEvent/code page that close() documents as the reference for its `code` argument).  1000/1011 and 1005/1006/1015 are decided above.
+_SENDABLE_REGISTERED = (
+    (1001, 'Going Away, RFC 6455'),
+    (1002, 'Protocol Error, RFC 6455'),
+    (1003, 'Unsupported Data, RFC 6455'),
+    (1007, 'Invalid Frame Payload Data, RFC 6455'),
+    (1008, 'Policy Violation, RFC 6455'),
+    (1009, 'Message Too Big, RFC 6455'),
+    (1010, 'Mandatory Extension, RFC 6455'),
+    (1012, 'Service Restart, IANA registry - assigned after the RFC text was written'),
+    (1013, 'Try Again Later, IANA registry - assigned after the RFC text was written'),
+    (1014, 'Bad Gateway, IANA registry - assigned after the RFC text was written'),
+)
+_UNSENDABLE_REGISTERED = (
+    (1004, 'RFC 6455: reserved, "the specific meaning might be defined in the future"'),
+    (1016, 'first unassigned code: 1016-1999 are reserved for future revisions of the WebSocket protocol'),
+    (1999, 'last code of the range reserved for future revisions of the WebSocket protocol'),
+)
+
+
 def r4_close_codes(run):
     p = run.project
     model = _model(run)
@@ -1453,6 +1773,15 @@ def r4_close_codes(run):
     group('1000 and 1011 are accepted and sent unchanged', [1000, 1011], 'accept', 'ws.close(%d) raises although the framework itself uses this code')
     group('every code in 3000-4999 is accepted and sent unchanged (the framework emits 3000+status and 3011)', [v for v in pts if 3000 <= v <= 4999],
           'accept', 'ws.close(%d) raises, so an HTTPError in on_websocket cannot be reported')
+    # the registered table below 3000 (wave 8, seeded s8-c17-2): the oracle is the reference close() documents for its `code` argument
+    # (MDN CloseEvent/code = RFC 6455 section 7.4.1 + the IANA WebSocket Close Code Number Registry), one line of reason per code
+    for v, why in _SENDABLE_REGISTERED:
+        verdicts.setdefault(v, _classify_code(p, model, v))
+        group('the registered, sendable code %d (%s) is accepted and sent unchanged' % (v, why), [v], 'accept',
+              'ws.close(%d) raises "Invalid close code" for a valid code (and as ws_options.error_close_code it is replaced by the fallback 3011)')
+    for v, why in _UNSENDABLE_REGISTERED:
+        verdicts.setdefault(v, _classify_code(p, model, v))
+        group('the code %d (%s) is rejected with ValueError' % (v, why), [v], 'reject', 'ws.close(%d) puts a reserved close code on the wire')
     v = _classify_code(p, model, None)
     run.check(v == 'accept', 'close(): code=None means 1000 on the wire', f, 'close-code default', witness=[str(v)])
     # reason only when the spec version supports it
@@ -2474,9 +2803,9 @@ def check(run):
         '_handle_exception() returned True, so no websocket.close is sent and the pump task keeps running (R3 covers the default handlers only)',
     ]
     run.rule('R1', r1_operations, 'per-operation legality of emissions/receives, wrong-state errors, post-states', floor=80)
-    run.rule('R2', r2_who_may_emit, 'the raw send and the event literals belong to the state machine', floor=9)
-    run.rule('R3', r3_always_closed, 'close after the responder, exceptions reach the ws-aware handlers, handlers close, code mapping', floor=20)
-    run.rule('R4', r4_close_codes, 'close-code partition and reason gate', floor=9)
+    run.rule('R2', r2_who_may_emit, 'the raw send and the event literals belong to the state machine', floor=10)
+    run.rule('R3', r3_always_closed, 'close after the responder, exceptions reach the ws-aware handlers, handlers close, code mapping', floor=22)
+    run.rule('R4', r4_close_codes, 'close-code partition and reason gate', floor=20)
     run.rule('R5', r5_payload_types, 'payload type checks', floor=11)
     run.rule('R6', _c18.disconnect_flag_prompt, 'the receive pump raises the client_disconnected flag before it suspends again after pulling the '
                                                 'disconnect (nothing is sent after the connection is lost; pump context shared with C18 R3)', floor=1)
